@@ -65,6 +65,9 @@ def strip(n):
         if n.get('kind') == 'ConstantExpr' and 'value' in n and not kids(n):
             return n
         k = kids(n)
+        if n.get('kind') == 'SubstNonTypeTemplateParmExpr' and k:
+            n = k[-1]
+            continue
         if len(k) != 1:
             return n
         n = k[0]
@@ -1006,7 +1009,9 @@ class FnTr:
             if not is_const:
                 lv = self.lval(init)
                 self.alias[v['id']] = lv
-                self.alias_deps[v['id']] = set(re.findall(r'[A-Za-z_][A-Za-z_0-9]*', lv))
+                # the alias is a textual substitution: only the variables inside index brackets must stay fixed
+                self.alias_deps[v['id']] = set(w for br in re.findall(r'\[([^\]]*)\]', lv)
+                                               for w in re.findall(r'\b[A-Za-z_][A-Za-z_0-9]*\b(?!\s*[.\[(])', br))
                 self.live[-1].append(v['id'])
                 return
             # const reference: a value copy; the referent must not be written while it lives
@@ -1231,8 +1236,9 @@ class ExprMixin:
     def expr(self, n, discard=False):
         k = n['kind']
         ks = kids(n)
-        if k in ('ExprWithCleanups', 'CXXBindTemporaryExpr', 'MaterializeTemporaryExpr',
-                 'SubstNonTypeTemplateParmExpr'):
+        if k == 'SubstNonTypeTemplateParmExpr':
+            return self.expr(ks[-1], discard)
+        if k in ('ExprWithCleanups', 'CXXBindTemporaryExpr', 'MaterializeTemporaryExpr'):
             return self.expr(ks[0], discard)
         if k == 'ConstantExpr':
             if 'value' in n and re.match(r'-?\d+$', str(n['value'])):
@@ -1736,6 +1742,8 @@ class StdMixin:
             return self.obj(objn) + '.has'
         if name.startswith('operator ') and ot.name == 'std::shared_ptr':
             return '(%s.id != BS_NULLID)' % self.obj(objn)
+        if name == 'operator=' and ot.name in ('std::vector', 'std::array', 'std::shared_ptr', 'std::optional'):
+            return self.std_operator('operator=', [objn] + list(args), n, discard)
         if ot.name == 'std::vector':
             if name == 'size':
                 return self.obj(objn, is_arrow) + '.n'
